@@ -236,7 +236,9 @@ func cmdTcm(args []string) {
 		if !ok {
 			fatal("tcm: unknown monoid", c.Mx)
 		}
-		r.run(out, c.Mx, c.Vals, c.Seqs)
+		c := c
+		out.Ev("Case", "ty", c.Mx, "what", "monoid")
+		deadline(out, caseDeadline, func() { r.run(out, c.Mx, c.Vals, c.Seqs) })
 		out.tr++
 		sum.Inc("monoids", 1)
 	}
